@@ -63,3 +63,8 @@ func VerifSyncOnce(db *DB, ctx context.Context) error {
 	_, err := db.syncOnce(ctx, db.MaxSyncWALBytes)
 	return err
 }
+
+// VerifPageMap exposes WALReader.pageMap (with its byte budget) to the simulator.
+func (r *WALReader) VerifPageMap(ctx context.Context, maxBytes int64) (m map[uint32]int64, maxOffset int64, commit uint32, limited bool, err error) {
+	return r.pageMap(ctx, maxBytes)
+}
